@@ -143,7 +143,8 @@ def analyse(fn, module_containers, cls_node=None):
         used = set()
         for n in ast.walk(fn):
             ln = getattr(n, 'lineno', None)
-            if ln is not None and look < ln <= store.lineno and isinstance(n, ast.Name) and isinstance(n.ctx, ast.Load) and n.id in params:
+            if ln is not None and look < ln <= store.lineno and isinstance(n, ast.Name) and isinstance(n.ctx, ast.Load) and n.id in params \
+                    and _can_flow_to(fn, n, store):
                 used.add(n.id)
         missing = sorted(used - kparams)
         if missing:
@@ -188,6 +189,41 @@ def analyse(fn, module_containers, cls_node=None):
 
 MUTATORS = {'append', 'extend', 'insert', 'pop', 'remove', 'clear', 'sort', 'reverse', 'update', 'setdefault', 'add',
             'discard', 'popitem', '__setitem__', '__delitem__'}
+
+
+def _terminates(body):
+    if not body:
+        return False
+    last = body[-1]
+    if isinstance(last, (ast.Return, ast.Raise, ast.Continue, ast.Break)):
+        return True
+    if isinstance(last, ast.If) and last.orelse:
+        return _terminates(last.body) and _terminates(last.orelse)
+    return False
+
+
+def _can_flow_to(fn, node, target):
+    """False only when no execution that evaluates `node` can go on to `target`: node sits in an exception handler and the target is
+    in the body / else part of the same try (a handler never continues there), or the handler always leaves the function"""
+    parent = {}
+    for p in ast.walk(fn):
+        for c in ast.iter_child_nodes(p):
+            parent[id(c)] = p
+    def inside(x, container_nodes):
+        ids = {id(y) for c in container_nodes for y in ast.walk(c)}
+        return id(x) in ids
+    cur = node
+    while id(cur) in parent:
+        par = parent[id(cur)]
+        if isinstance(cur, ast.ExceptHandler) and isinstance(par, ast.Try):
+            if inside(target, [cur]):
+                return True
+            if inside(target, par.body + par.orelse):
+                return False
+            if _terminates(cur.body) and not inside(target, par.finalbody):
+                return False
+        cur = par
+    return True
 
 
 def shared_alias_mutations(fn, module_names):
